@@ -295,12 +295,111 @@ pub fn run(cmd: &str, args: &[&str]) -> String {
                         let g2: Vec<u32> = weechess_core::MoveGenerator::compute_legal_moves(&s2).moves().iter().map(|m| m.0.as_raw()).collect();
                         let has_king = |st: &State| st.board().piece_occupancy(PieceIndex::new(st.turn_to_move(), Piece::King)).any();
                         let e_same = if has_king(&s) { ev.evaluate(&s, Color::White, 3) == ev.evaluate(&s2, Color::White, 3) } else { true };
-                        let ok = s == s2 && fen_of(&s2) == w && g1 == g2 && h.hash(&s) == h.hash(&s2) && e_same;
+                        let ok = fen_of(&s2) == w && g1 == g2 && h.hash(&s) == h.hash(&s2) && e_same;
                         format!("{} {}", if ok { "same" } else { "DIFFERENT" }, w)
                     }
                 }
             }
         },
+        ("san", [fen, text]) => match state_of(fen) {
+            None => "badfen".into(),
+            Some(s) => {
+                let text = crate::unescape_pub(text);
+                match weechess_core::notation::try_from_notation::<MoveQuery, weechess_core::notation::San>(&text) {
+                    Err(_) => "err".into(),
+                    Ok(q) => {
+                        let set = weechess_core::MoveGenerator::compute_legal_moves(&s);
+                        let mut l: Vec<String> = set.filter(q).map(|r| {
+                            let o: u8 = r.0.origin().into(); let d: u8 = r.0.destination().into();
+                            format!("{}/{}/{}", o, d, opt_piece_int(r.0.promotion())) }).collect();
+                        l.sort();
+                        format!("ok {}", l.join(";"))
+                    }
+                }
+            }
+        },
+        ("lan", [fen]) => match state_of(fen) {
+            // coordinate text of every legal move and what that text selects again
+            None => "badfen".into(),
+            Some(s) => {
+                let set = weechess_core::MoveGenerator::compute_legal_moves(&s);
+                let mut l: Vec<String> = Vec::new();
+                for r in set.moves() {
+                    let text = weechess_core::notation::into_notation::<_, weechess_core::notation::lan::Lan>(&r.0).to_string();
+                    // the UCI way of turning the text back into a query
+                    let back = (|| {
+                        let o = Square::try_from(text.get(0..2)?).ok()?;
+                        let d = Square::try_from(text.get(2..4)?).ok()?;
+                        let mut q = MoveQuery::new();
+                        q.set_origin(o); q.set_destination(d);
+                        if let Some(p) = text.chars().nth(4) {
+                            q.set_promotion(match p { 'q' => Piece::Queen, 'r' => Piece::Rook, 'b' => Piece::Bishop, 'n' => Piece::Knight, _ => return None });
+                        }
+                        State::by_performing_moves(&s, &[q]).ok()
+                    })();
+                    // compare by FEN: `State ==` also compares the OnceCell attack caches, which depend on what was queried
+                    let same = back.map(|n| fen_of(&n) == fen_of(&r.1)).unwrap_or(false);
+                    let o: u8 = r.0.origin().into(); let d: u8 = r.0.destination().into();
+                    l.push(format!("{}/{}/{}>{}>{}", o, d, opt_piece_int(r.0.promotion()), text, same as u8));
+                }
+                l.sort();
+                l.join(";")
+            }
+        },
+        ("search", [hseed, seed, depth, cancel, workers, nt, nb, hist, fens]) => {
+            // chain of searches on one small artifact through the real analyze_iterative (synchronous hook)
+            use rand::SeedableRng;
+            use weechess_engine::searcher::{verif, StatusEvent};
+            let mut r0 = rand_chacha::ChaCha8Rng::seed_from_u64(hseed.parse().unwrap());
+            let mut artifact = Some(verif::small_artifact(&mut r0, nt.parse().unwrap(), nb.parse().unwrap()));
+            if *hist != "-" {
+                for h in hist.split('|') {
+                    if let Some(st) = state_of(h) { verif::record_history(artifact.as_mut().unwrap(), &st); }
+                }
+            }
+            let depth: Option<usize> = if *depth == "-" { None } else { Some(depth.parse().unwrap()) };
+            let cancel: Option<usize> = if *cancel == "-" { None } else { Some(cancel.parse().unwrap()) };
+            let workers: usize = workers.parse().unwrap();
+            let seed: u64 = seed.parse().unwrap();
+            let mut outs: Vec<String> = Vec::new();
+            let tracing = std::env::var("WV_TRACE").is_ok();
+            for (i, fen) in fens.split('|').enumerate() {
+                let Some(st) = state_of(fen) else { outs.push("badfen".into()); continue };
+                let mut evs: Vec<String> = Vec::new();
+                verif::set_tracing(true);
+                let (art, nodes) = verif::analyze_sync(st, seed.wrapping_add(i as u64), depth, Some(workers), artifact.take(), cancel, &mut |e| match e {
+                    StatusEvent::BestMove { line, evaluation } => {
+                        let ev: i32 = evaluation.into();
+                        evs.push(format!("B{}:{}", ev, line.iter().map(|m| m.as_raw().to_string()).collect::<Vec<_>>().join(",")));
+                    }
+                    StatusEvent::Progress { depth, nodes_searched, .. } => evs.push(format!("P{}:{}", depth, nodes_searched)),
+                    StatusEvent::Warning { .. } => {}
+                });
+                artifact = Some(art);
+                let tr = verif::take_trace();
+                verif::set_tracing(false);
+                // order-dependent checksum of every node entry (hash, depth, max depth, window)
+                let md: u64 = 1000000007;
+                let mut acc: u64 = 17;
+                for t in tr.iter() {
+                    for x in [t.0 % md, t.1 as u64 % md, t.2 as u64 % md, (t.3 as i64 + 20000) as u64, (t.4 as i64 + 20000) as u64] {
+                        acc = (acc * 131 + x + 7) % md;
+                    }
+                }
+                if tracing {
+                    evs.push(format!("TRACE[{}]", tr.iter().map(|t| format!("{}:{}:{}:{}:{}", t.0, t.1, t.2, t.3, t.4)).collect::<Vec<_>>().join(" ")));
+                }
+                outs.push(format!("{} #{} t{}", evs.join(" "), nodes, acc));
+            }
+            outs.join(" || ")
+        }
+        ("jitter", [seed, n]) => {
+            use rand::{Rng, RngCore, SeedableRng};
+            let mut rng = rand_chacha::ChaCha8Rng::seed_from_u64(seed.parse().unwrap());
+            for _ in 0..1038 { rng.next_u64(); }
+            let mut w = rand_chacha::ChaCha8Rng::seed_from_u64(rng.gen());
+            (0..n.parse::<usize>().unwrap()).map(|_| w.gen_range(-10..=10).to_string()).collect::<Vec<_>>().join(",")
+        }
         ("hashstream", [seed]) => {
             use rand::RngCore;
             use rand::SeedableRng;
